@@ -377,6 +377,7 @@ def c09(ev, tier, seed):
                "The replay compares every value returned by poll_read / poll_fill_buf byte for byte with the wire intervals the "
                "specification predicts, the result of set_stream, and the is_writeable() samples.")
     conn_model(ev, "C09", seed, "reads-b24", 24, ["reads"], maxcuts=2)
+    conn_model(ev, "C09", seed, "reads-pend-q", 24, ["reads"], spurious=True, maxcuts=1, maxpend=1)
     if tier == "thorough":
         conn_model(ev, "C09", seed, "reads-b32", 32, ["reads", "basic"], maxcuts=3)
         conn_model(ev, "C09", seed, "reads-pend", 24, ["reads"], spurious=True, maxcuts=1, maxpend=2)
